@@ -253,6 +253,11 @@ def serde_rule(rep, serde):
     rep.floor("serializable data types", 40, len(seen))
     for c in serde.crates.values():
         for it in c.ast_items:
+            for a in it.get("attrs", []):
+                # container attributes that change the representation so that distinct values can serialize alike (untagged),
+                # cannot represent every variant shape (internal tagging of tuple variants) or route through another type
+                if "serde(" in a and re.search(r"\b(untagged|tag|content|from|try_from|into|remote|default|other)\b", a):
+                    rep.violation("R5", "serde-attr:%s" % it["name"], "type %s carries the container attribute %s: values that differ only in the variant (or fields the other form lacks) do not survive a serialize/deserialize round trip" % (it["name"], a.strip()))
             fields = list(it.get("fields", []))
             for v in it.get("variants", []):
                 fields.extend(v.get("fields", []))
